@@ -159,6 +159,11 @@ func DecodeType(data []byte, oid int) interface{} {
 }
 
 func decodeScalar(data []byte, oid int) interface{} {
+	// Fixed-width types: refuse a value shorter than the type's width instead of
+	// indexing past the end of data.
+	if n, ok := fixedLengths[oid]; ok && len(data) < n {
+		return nil
+	}
 	switch oid {
 	// Boolean
 	case OidBool:
